@@ -226,12 +226,15 @@ static int bt_enabled(BModel *m, int op) { return op < BK ? m->n < BMAXE - 1 : b
 /* replay; returns 1 ok, 0 violation, -1 if last op was not enabled */
 static int bt_run(int seed, const int *ops, int len, BModel *out, unsigned long long *ph)
 {
-	BTree b = btreeNew(2);
+	/* seed = 1000 * t + prefill (t = 2 when seed < 1000): minimum degree of the tree and number of entries inserted first */
+	int bt_t = seed >= 1000 ? seed / 1000 : 2;
+	BTree b = btreeNew(bt_t);
 	BModel m;
 	int i, ok = 1;
 	unsigned long long h = 1469598103934665603ULL;
 	long id = 1;
 	m.n = 0;
+	seed %= 1000;
 	for (i = 0; i < seed; i++) {
 		int k = (i * 5) % BK + 1;
 		btreeInsert(&b, (BTreeKey) k, (BTreeElt) id);
